@@ -293,7 +293,7 @@ func (i *interpreter) valStruct(fr *frame, ctx value, sp iface, fields []value) 
 }
 
 // valIndirect / valIsEmpty: util.go
-func (i *interpreter) valIndirect(v iface) (iface, bool) {
+func (i *interpreter) valIndirect(fr *frame, v iface) (iface, bool) {
 	if v.t == nil {
 		return iface{}, true
 	}
@@ -303,7 +303,7 @@ func (i *interpreter) valIndirect(v iface) (iface, bool) {
 		if p == nil {
 			return iface{}, true
 		}
-		return i.valIndirect(i.asIface(U.Elem(), *p))
+		return i.valIndirect(fr, i.asIface(U.Elem(), *p))
 	case *types.Slice:
 		if s, ok := v.v.([]value); ok && s == nil {
 			return iface{}, true
@@ -317,8 +317,14 @@ func (i *interpreter) valIndirect(v iface) (iface, bool) {
 			return iface{}, true
 		}
 	}
-	if i.methodOf(v.t, "Value") != nil {
-		unsup("validation: driver.Valuer values")
+	// driver.Valuer: Value() (driver.Value, error); the library unwraps what it returns
+	if fn := i.methodOf(v.t, "Value"); fn != nil && fn.Signature.Params().Len() == 0 && fn.Signature.Results().Len() == 2 {
+		res := call(i, fr, token.NoPos, fn, []value{v.v}).(tuple)
+		val, _ := res[0].(iface)
+		if val.t != nil && isNilErr(res[1]) {
+			return i.valIndirect(fr, val)
+		}
+		return iface{}, true
 	}
 	return v, false
 }
@@ -412,7 +418,7 @@ func init() {
 		return fr.i.valIsEmpty(argIface(args[0]))
 	}
 	intrinsics[valPath+".Indirect"] = func(fr *frame, args []value) value {
-		v, isNil := fr.i.valIndirect(argIface(args[0]))
+		v, isNil := fr.i.valIndirect(fr, argIface(args[0]))
 		return tuple{v, isNil}
 	}
 	intrinsics[valPath+".LengthOfValue"] = func(fr *frame, args []value) value {
